@@ -102,8 +102,8 @@ CORPUS = [
      + [('rename', '03', 'e'), ('add', 'G\t003\t3+\tb-\t5\t*'), ('rm', '003'), ('add', 'U\t03\t3 b'), ('rename', '3', 'c')]),
     # a gap named by groups before its G line arrives: the groups refer to the gap afterwards, not to the stand-in
     # (the gap is not removed here: what a removed gap leaves in a set is the recorded finding F28)
-    ('gfa2', _adds(['S\tA\t5\t*', 'S\tB\t5\t*', 'U\tu\tA g', 'G\tg\tA+\tB+\t5\t*', 'U\tv\tg u']) + [('rename', 'A', 'n1'), ('rm', 'v')]),
-    ('gfa2', _adds(['U\tu\tA g', 'O\to\tA+ g+ B+', 'G\tg\tA+\tB+\t5\t*', 'S\tA\t5\t*', 'S\tB\t5\t*']) + [('rename', 'B', 'n2'), ('rm', 'u')]),
+    ('gfa2', _adds(['S\tA\t5\t*', 'S\tB\t5\t*', 'U\tu\tA g', 'G\tg\tA+\tB+\t5\t*', 'U\tv\tg u']) + [('rename', 'A', 'n1'), ('rename', 'g', 'g2'), ('rm', 'v')]),
+    ('gfa2', _adds(['U\tu\tA g', 'O\to\tA+ g+ B+', 'G\tg\tA+\tB+\t5\t*', 'S\tA\t5\t*', 'S\tB\t5\t*']) + [('rename', 'B', 'n2'), ('rename', 'g', 'h'), ('rm', 'u')]),
     # lines that arrive before the segments they mention, then a rename of such a segment
     ('gfa1', _adds(['C\tA\t+\tB\t+\t0\t*', 'L\tA\t+\tB\t-\t*', 'P\tp\tA+,B-\t*', 'S\tA\t*', 'S\tB\t*']) + [('rename', 'A', 'n1'), ('rename', 'B', 'n2')]),
     ('gfa1', _adds(['C\tA\t-\tB\t+\t2\t3M', 'S\tB\t*', 'S\tA\t*']) + [('rename', 'B', 'n1'), ('rm', 'A')]),
